@@ -1,4 +1,4 @@
-import MechVerif.Model.Loader
+import MechVerif.Model.Emit
 import MechVerif.Lemmas.Bytecode
 import MechVerif.Lemmas.Crc
 namespace MechVerif.Loader
@@ -146,11 +146,6 @@ theorem load_crc_error (valid : List Byte → Bool) (bs : List Byte) (e : Crc.VE
   · next h' => rw [h] at h'; cases h'
 
 /-! ### the symbol table -/
-
-def writeSymbol (s : Nat × Bool × Nat) : List Byte :=
-  leBytes 8 s.1 ++ leBytes 1 (if s.2.1 then 1 else 0) ++ leBytes 4 s.2.2
-
-def writeSymbols (ss : List (Nat × Bool × Nat)) : List Byte := ss.flatMap writeSymbol
 
 def symWf (s : Nat × Bool × Nat) : Prop := s.1 < 256 ^ 8 ∧ s.2.2 < 256 ^ 4
 
